@@ -49,6 +49,8 @@ import (
 type TopoPeer struct {
 	ID    string   `json:"id"`
 	Addrs []string `json:"addrs"`
+	// more addresses, after Addrs: multiaddr texts of ARBITRARY bytes, hex-encoded (alpha.go)
+	AddrsX []string `json:"addrsx,omitempty"`
 }
 
 // Value describes a value to store.  Key shares: the key material of fixture share `Fixture`
@@ -69,6 +71,10 @@ type Value struct {
 	// key shares: the same key material with two entries exchanged (ECDSA: Ks[0] and Ks[1]; FROST: the
 	// verification shares of the two smallest party ids) - a DIFFERENT share whose file has the SAME length
 	Swap bool `json:"swap,omitempty"`
+	// FROST shares, free text (alpha.go; hex-encoded bytes): FrostID replaces Key.ID, every text of PartyX
+	// becomes one more key of Key.VerificationShares (with a real point of the fixture)
+	FrostID string   `json:"frostid,omitempty"`
+	PartyX  []string `json:"partyx,omitempty"`
 }
 
 // Step is one store attempt of a history.  The number of bytes after which a write fails / the process
@@ -95,6 +101,11 @@ type Case struct {
 	OneProc bool `json:"oneproc,omitempty"`
 	// roundtrip: the value is adjusted so that the stored file has exactly Size bytes (fitSize)
 	Size int `json:"size,omitempty"`
+	// roundtrip: a value of the content alphabet (alpha.go)
+	Alpha bool `json:"alpha,omitempty"`
+	// key share stores (roundtrip, one-process history, reread): every store / read is made between
+	// LockKeyshare() and UnlockKeyshare() of the store object, as the tss processes make them
+	Locked bool `json:"locked,omitempty"`
 	// reread (reread.go): quick store / read sequences on ONE long-lived store object in one process:
 	// Ops = one character per operation, a digit = store Vals[digit], 'r' = read through the getter of the
 	// long-lived object and of a fresh one; Pin: the file is given one fixed modification time after every
@@ -119,6 +130,9 @@ type Op struct {
 
 type Obs struct {
 	Err   string `json:"err,omitempty"` // harness-level failure (reported as a broken correspondence)
+	// a store / read call of the real code (or the child process driving it) did not return within its
+	// deadline (guard.go): which one
+	Hung string `json:"hung,omitempty"`
 	Old   string `json:"old,omitempty"` // hex of the file before
 	Final string `json:"final,omitempty"`
 	Ops   []Op   `json:"ops,omitempty"`
@@ -202,6 +216,7 @@ func frostValue(v Value) keyshare.FrostKeyshare {
 	k.Threshold = v.Threshold
 	k.Peers = allPeers(v)
 	k = extendFrost(k, v.Parties, v.PSeed)
+	k = textFrost(k, v)
 	if v.Swap && k.Key != nil && len(k.Key.VerificationShares) >= 2 {
 		ids := make([]string, 0, len(k.Key.VerificationShares))
 		for id := range k.Key.VerificationShares {
@@ -237,7 +252,7 @@ func topoValue(v Value) *topology.NetworkTopology {
 			panic(err)
 		}
 		ai := &peer.AddrInfo{ID: id, Addrs: []ma.Multiaddr{}}
-		for _, a := range p.Addrs {
+		for _, a := range peerAddrs(p) {
 			m, err := ma.NewMultiaddr(a)
 			if err != nil {
 				panic(err)
@@ -419,14 +434,14 @@ func spawn(mode string, a childArgs, wrap []string) ([]byte, error) {
 	}
 	argv := append(append([]string{}, wrap...), self)
 	cmd := exec.Command(argv[0], argv[1:]...)
-	cmd.Env = append(os.Environ(), "C18_CHILD="+mode, "C18_ARGS="+string(b))
-	var stderr bytes.Buffer
-	cmd.Stderr = &stderr
-	out, err := cmd.Output()
-	if err != nil {
-		return out, fmt.Errorf("%v: %s", err, strings.TrimSpace(stderr.String()))
+	cmd.Env = childEnv(mode, string(b))
+	var stdout bytes.Buffer
+	cmd.Stdout = &stdout
+	end, stderr := runChild(cmd)
+	if end != "exit 0" {
+		return stdout.Bytes(), fmt.Errorf("%s: %s", end, strings.TrimSpace(stderr))
 	}
-	return out, nil
+	return stdout.Bytes(), nil
 }
 
 // ---- strace translation ----------------------------------------------------------------------------------
@@ -666,23 +681,12 @@ func hexOf(b []byte) string { return hex.EncodeToString(b) }
 
 func spawnEndTo(mode, args string, argv []string, stdout *os.File) string {
 	cmd := exec.Command(argv[0], argv[1:]...)
-	cmd.Env = append(os.Environ(), "C18_CHILD="+mode, "C18_ARGS="+args)
+	cmd.Env = childEnv(mode, args)
 	if stdout != nil {
 		cmd.Stdout = stdout
 	}
-	err := cmd.Run()
-	if err == nil {
-		return "exit 0"
-	}
-	if ee, ok := err.(*exec.ExitError); ok {
-		if ws, ok := ee.Sys().(syscall.WaitStatus); ok {
-			if ws.Signaled() {
-				return "signal " + ws.Signal().String()
-			}
-			return fmt.Sprintf("exit %d", ws.ExitStatus())
-		}
-	}
-	return "spawn: " + err.Error()
+	end, _ := runChild(cmd)
+	return end
 }
 
 // intended returns the bytes a complete, healthy store of v writes (real store into a scratch file).
@@ -790,6 +794,10 @@ func runHistory(c Case, dir, path string) Obs {
 		log := filepath.Join(tmpRoot, fmt.Sprintf("strace%d_%d.log", caseNo, i))
 		wrap = append(wrap, "-o", log, "-e", traceSet+",fchmodat")
 		so.End = spawnEnd("hstore", args, wrap)
+		if hungNote != "" {
+			os.Remove(log)
+			return Obs{}
+		}
 		ops, err := translateIds(log, sdir, path, ids)
 		os.Remove(log)
 		if err != nil {
@@ -851,7 +859,21 @@ func sweepKs(n, step int) []int {
 	return ks
 }
 
-func run(c Case) (o Obs) {
+// run: the case under the deadlines of guard.go - a call of the real code (or a child driving it) that
+// does not return is the observation of the case, whatever else was seen
+func run(c Case) Obs {
+	hungNote = ""
+	lockCalls = c.Locked
+	defer func() { lockCalls = false }()
+	bigCase = c.Size > 1<<21 || c.New.Parties > 2000 || (c.New.TopoGen != nil && c.New.TopoGen.N*(c.New.TopoGen.Addrs+1) > 20000)
+	o := runCase(c)
+	if hungNote != "" {
+		return Obs{Hung: hungNote}
+	}
+	return o
+}
+
+func runCase(c Case) (o Obs) {
 	defer func() {
 		if r := recover(); r != nil {
 			o = Obs{Err: fmt.Sprintf("harness panic: %v", r)}
@@ -1169,7 +1191,7 @@ func genObjHistories(r *vgen.Rng, thorough bool) []Case {
 		}
 		for i := 0; i < nh[st]; i++ {
 			old := genValue(r, st)
-			c := Case{Kind: "history", Store: st, Old: &old, G: g, OneProc: true}
+			c := Case{Kind: "history", Store: st, Old: &old, G: g, OneProc: true, Locked: st != "topology" && i%2 == 0}
 			pat := i % 6
 			if st == "ecdsa" && !thorough { // two cases: both with a healthy store after a failed one
 				pat = []int{vgen.Pick(r, []int{0, 1, 3}), 5}[i%2]
@@ -1426,7 +1448,7 @@ func genAll(r *vgen.Rng, tier string) []Case {
 				reps = 30
 			}
 			for rep := 0; rep < reps; rep++ {
-				out = append(out, Case{Kind: "roundtrip", Store: st, New: genShare(r, fx)})
+				out = append(out, Case{Kind: "roundtrip", Store: st, New: genShare(r, fx), Locked: rep%2 == 1})
 			}
 			out = append(out, Case{Kind: "roundtrip", Store: st, New: Value{Fixture: fx, Threshold: 1, Peers: []string{}}})
 		}
@@ -1436,6 +1458,7 @@ func genAll(r *vgen.Rng, tier string) []Case {
 			out = append(out, Case{Kind: "roundtrip", Store: "topology", New: genTopo(r, r.Range(0, 7))})
 		}
 	}
+	out = append(out, genAlpha(r, thorough)...)
 	out = append(out, genLarge(r, thorough)...)
 	return out
 }
@@ -1469,19 +1492,19 @@ func printable(b []byte) bool {
 // coqTopo renders a topology value as a term of Model/C18Codec.v (only for texts without characters
 // that need JSON escapes).
 func coqTopo(v Value) (string, bool) {
-	okStr := func(s string) bool { return printable([]byte(s)) && !strings.ContainsAny(s, "\"\\<>&") }
 	tp := topoPeers(v)
 	peers := make([]string, 0, len(tp))
 	for _, p := range tp {
-		if !okStr(p.ID) {
+		if !rawJSON(p.ID) {
 			return "", false
 		}
-		for _, a := range p.Addrs {
-			if !okStr(a) {
+		as := peerAddrs(p)
+		for _, a := range as {
+			if !rawJSON(a) {
 				return "", false
 			}
 		}
-		peers = append(peers, "mkPeer "+vgen.Str(p.ID)+" "+vgen.ListOf(p.Addrs, vgen.Str))
+		peers = append(peers, "mkPeer "+coqStr(p.ID)+" "+vgen.ListOf(as, coqStr))
 	}
 	if v.Threshold < 0 {
 		return "", false
@@ -1568,6 +1591,9 @@ func coqHistory(c Case, o Obs) string {
 }
 
 func coq(c Case, o Obs) string {
+	if o.Hung != "" {
+		return "Hung"
+	}
 	if o.Err != "" {
 		// harness-level failure: the judge has no opinion ([] holds no outcome), the model disagrees
 		// ([New] expected) -> reported as a broken correspondence, never as a violation
@@ -1593,9 +1619,10 @@ func coq(c Case, o Obs) string {
 	case "roundtrip":
 		if c.Store == "topology" && o.File != "" && c.Size == 0 {
 			if t, ok := coqTopo(c.New); ok {
-				if b, _ := hex.DecodeString(o.File); printable(b) {
-					return "TopoFile " + t + " " + vgen.Str(string(b)) + " " + vgen.Bool(o.Equal)
-				}
+				// (a file the real store did not write as one line of text without control characters
+				// still is a file the model printer did not write: TopoFile, the printer disagrees)
+				b, _ := hex.DecodeString(o.File)
+				return "TopoFile " + t + " " + coqStr(string(b)) + " " + vgen.Bool(o.Equal)
 			}
 		}
 		return "RoundTrip " + vgen.Bool(o.Equal)
@@ -1636,6 +1663,8 @@ func main() {
 				return "history1p-" + c.Store
 			case c.Kind == "reread" && c.Pin:
 				return "reread-pinned-" + c.Store
+			case c.Kind == "roundtrip" && c.Alpha:
+				return "roundtrip-alphabet-" + c.Store
 			case c.Kind == "roundtrip" && isLarge(c):
 				return "roundtrip-large-" + c.Store
 			}
